@@ -23,7 +23,9 @@ REACH_MIN = {"requests_completed_with_response": {"quick": 600, "thorough": 8100
              "bootstrap_scenarios": {"quick": 88, "thorough": 1188},
              "pattern_lost_with_cancelled": {"quick": 15, "thorough": 400},
              "pattern_close_cancels_sibling": {"quick": 15, "thorough": 400},
-             "pattern_disconnect_window": {"quick": 15, "thorough": 400}}
+             "pattern_disconnect_window": {"quick": 15, "thorough": 400},
+             "pattern_flush_on_connect": {"quick": 15, "thorough": 400},
+             "pattern_odd_ids": {"quick": 15, "thorough": 400}}
 
 
 def cases(tier, seed):
@@ -31,7 +33,7 @@ def cases(tier, seed):
     out = [dict(kind="bc", seed=seed * 1000003 + i) for i in range(n)]
     nb = {"quick": 160, "thorough": 4000}[tier]
     out += [dict(kind="bootstrap", seed=seed * 1000033 + i) for i in range(nb)]
-    npat = {"quick": 160, "thorough": 4000}[tier]
+    npat = {"quick": 200, "thorough": 5000}[tier]
     out += [dict(kind="pattern", seed=seed * 1000037 + i) for i in range(npat)]
     return out
 
